@@ -38,7 +38,7 @@ from .sympy_helpers import _custom_simplify_expr, _is_zero
 def get_block_diagonal_blocks(A):
     assert A.shape[0] == A.shape[1], "matrix A should be square"
 
-    A_mirrored = (A + A.T) != 0   # make the matrix symmetric so we only have to check one triangle
+    A_mirrored = (A != 0) | (A.T != 0)   # symmetric coupling pattern; do not add A and A.T, as entries of opposite sign (e.g. x' = y, y' = -x) would cancel
 
     graph_components = scipy.sparse.csgraph.connected_components(A_mirrored)[1]
 
